@@ -3762,12 +3762,21 @@ fn parse_sequence_keys(exprs: &[SExpr], s: &ParserState) -> Result<Vec<u16>> {
                                     seq.push(KEY_OVERLAP_MARKER);
                                 }
                                 if do_release_mod {
-                                    mods_currently_held.remove(
-                                        mods_currently_held
-                                            .iter()
-                                            .position(|modk| modk == released)
-                                            .expect("had to be pressed to be released"),
-                                    );
+                                    // A modifier prefix applied to an empty list, such as
+                                    // `S-A-()`, releases a key that was never recorded as a
+                                    // held modifier: that is not a valid chord.
+                                    match mods_currently_held
+                                        .iter()
+                                        .position(|modk| modk == released)
+                                    {
+                                        Some(pos) => {
+                                            mods_currently_held.remove(pos);
+                                        }
+                                        None => bail_expr!(
+                                            &exprs_remaining[0],
+                                            "{SEQ_ERR}\nFound invalid key/chord in key_list"
+                                        ),
+                                    }
                                 }
                                 // release->release: next release is mod
                                 do_release_mod = matches!(key_actions.peek(), Some(Release(..)));
